@@ -36,7 +36,7 @@ func runCPM(v *Vec) (res string) {
 	cpu := &z80.CPU{Memory: mem, IO: io}
 	cpu.AF, cpu.BC, cpu.DE, cpu.HL = r(v.W[0]), r(v.W[1]), r(v.W[2]), r(v.W[3])
 	cpu.SP, cpu.PC = v.W[11], v.W[12]
-	ctx, cancel := context.WithTimeout(context.Background(), 5*time.Second)
+	ctx, cancel := context.WithTimeout(context.Background(), 1*time.Second)
 	err := cpu.Run(ctx)
 	cancel()
 	code := "nil"
